@@ -4,7 +4,7 @@ from session_common import *
 ID = 'C01'
 COQ_TARGETS = ['Props/Properties_C01.vo']
 PROPS_FILES = ['Props/Properties_C01.v']
-THEOREMS = ['C01_remote_rcpt_needs_relay', 'C01_auth_only_from_backend', 'C01_envelope_is_accepted_only']
+THEOREMS = ['C01_remote_rcpt_needs_relay', 'C01_submission_needs_entitlement', 'C01_auth_only_from_backend', 'C01_envelope_is_accepted_only']
 ENGINES = [ENGINE]
 RULE = ('sessions aimed at the relay decision: relayclients / relayclients6 absent, listing the client, listing another network, with a size that is not a '
         'multiple of the record size, with an invalid prefix length, unreadable; IPv4-mapped and IPv6 clients; remote recipients before and after local ones, '
@@ -70,4 +70,13 @@ def gen_cases(engine, rng, tier):
     for _ in range(n):
         cfg = 'relay=%s;ip=%s;databytes=0;qq=ok,ok,ok,ok' % (rng.choice(['none', 'listed', 'unlisted', 'badsize', 'badprefix', 'unreadable']), rng.choice(['v4', 'v6']))
         out.append(session_gen.case(cfg, relay_session(rng)))
+    # the submission port (587): MAIL FROM itself needs the entitlement
+    for _ in range(n // 2):
+        cfg, chunks = session_gen.subm_gate_session(rng)
+        out.append(session_gen.case(cfg, chunks))
+    for _ in range(n // 6):
+        # the same histories with the relay / AUTH sessions of above, on port 587
+        cfg = 'relay=%s;ip=%s;databytes=0;qq=ok,ok,ok,ok;auth=%s;port=587' % (rng.choice(['none', 'listed', 'unlisted', 'badsize', 'badprefix', 'unreadable']), rng.choice(['v4', 'v6']),
+                                                                               rng.choice(['1', '1', '0']))
+        out.append(session_gen.case(cfg, session_gen.auth_session(rng) if rng.random() < 0.6 else relay_session(rng)))
     return out + session_gen.gen(rng, 200 if tier == 'quick' else 4000)
